@@ -288,8 +288,8 @@ def _big_stack():
     try:
         soft, hard = resource.getrlimit(resource.RLIMIT_STACK)
         resource.setrlimit(resource.RLIMIT_STACK, (hard, hard))
-        # ... but never more than 8 GiB of address space per runner process (a runaway case must not take the machine down)
-        resource.setrlimit(resource.RLIMIT_AS, (8 << 30, 8 << 30))
+        # ... but never more than 16 GiB of address space per runner process (a runaway case must not take the machine down)
+        resource.setrlimit(resource.RLIMIT_AS, (16 << 30, 16 << 30))
     except Exception:
         pass
 
